@@ -257,7 +257,7 @@ func init() {
 		},
 		// decoders write through their target argument: everything reachable is havoced (sound, coarse)
 		"google.golang.org/protobuf/proto.Unmarshal":                       havocAllCall,
-		"google.golang.org/protobuf/encoding/protodelim.UnmarshalFrom":     havocAllCall,
+		"google.golang.org/protobuf/encoding/protodelim.UnmarshalFrom":     decodeIntoTarget(1),
 		"encoding/json.Unmarshal":                                          havocAllCall,
 		"gopkg.in/yaml.v2.Unmarshal":                                       havocAllCall,
 		"gopkg.in/yaml.v2.UnmarshalStrict":                                 havocAllCall,
@@ -550,6 +550,57 @@ func sortPerm(fr *Frame, st *State, a []Val, in ssa.Instruction) Val {
 	u.heapStoreAt(st, h, app("sl_base", x.T), newRow)
 	u.note("sort.Sort/Stable: modelled as an in-place permutation of the slice (order not modelled)")
 	return unitV()
+}
+
+// decodeIntoTarget: a decoder that writes only through its target message (argument k, an interface wrapping a pointer
+// to a struct known statically): every field of the target gets an unconstrained value, pointer-like fields point to
+// nothing older than the call (nil or an object the decoder allocated); no other pre-existing object changes.
+// Falls back to havocking everything when the target is not statically a pointer to a struct.
+func decodeIntoTarget(k int) trustedFn {
+	return func(fr *Frame, st *State, a []Val, in ssa.Instruction) Val {
+		u := fr.u
+		ci := in.(ssa.CallInstruction)
+		arg := ci.Common().Args[k]
+		mi, ok := arg.(*ssa.MakeInterface)
+		if !ok {
+			return havocAllCall(fr, st, a, in)
+		}
+		pt, ok := mi.X.Type().Underlying().(*types.Pointer)
+		if !ok || !isStructT(pt.Elem()) {
+			return havocAllCall(fr, st, a, in)
+		}
+		x := fr.get(mi.X)
+		if x.Loc != nil || x.T == "" {
+			return havocAllCall(fr, st, a, in)
+		}
+		stT := canon(pt.Elem())
+		sT := stT.Underlying().(*types.Struct)
+		before := u.heapCur(st, "$alloc")
+		after := u.enc.freshConst("allocdec", "Int")
+		u.assume(app(">=", after, before))
+		u.heapSet(st, "$alloc", after)
+		for i := 0; i < sT.NumFields(); i++ {
+			if opaqueStruct(sT.Field(i).Type()) {
+				continue
+			}
+			h, ft := u.fieldHeap(stT, i)
+			v := fr.havocVal(ft, "dec$"+sT.Field(i).Name())
+			if v.T == "" {
+				continue
+			}
+			switch ft.Underlying().(type) {
+			case *types.Pointer, *types.Map:
+				u.assume(or(eq(v.T, "0"), and(app("<", before, v.T), app("<=", v.T, after))))
+			case *types.Slice:
+				u.assume(or(eq(app("sl_base", v.T), "0"), and(app("<", before, app("sl_base", v.T)), app("<=", app("sl_base", v.T), after))))
+			}
+			u.heapStoreAt(st, h, x.T, v.T)
+		}
+		sig := ci.Common().Signature()
+		rs := fr.freshResults(sig, "decode")
+		u.note("decoder call writes only through its target message (fields of the target unconstrained, nested messages newly allocated)")
+		return resultVal(u, sig, rs)
+	}
 }
 
 func havocAllCall(fr *Frame, st *State, a []Val, in ssa.Instruction) Val {
